@@ -58,6 +58,10 @@ def spec_of(name):
                           "horizontal_rule": {}, "text": {"group": "inline"},
                           "hard_break": {"inline": True, "group": "inline"}},
                 "marks": {"em": _bm["em"]}}
+    if name == "ws":
+        n = dict(ln)
+        n["verse"] = {"content": "text*", "group": "block", "whitespace": "pre"}     # keeps newlines, but is not `code`
+        return {"nodes": n, "marks": _bm}
     if name == "ni":
         # two non-inclusive marks adjacent in rank (link, comment) beside inclusive ones
         m = {"link": _bm["link"], "comment": {"inclusive": False, "excludes": ""}, "em": _bm["em"], "strong": _bm["strong"]}
@@ -83,7 +87,7 @@ MX = {
     "mx6": {"m0": {}, "m1": {"inclusive": False}, "m2": {"excludes": "m0 m1"}, "m3": {"excludes": "_"}},
 }
 
-ALL = ["basic", "list", "strict", "title", "fixed", "docmarks", "iso", "table", "ni", "cx", "mx1", "mx2", "mx3", "mx4", "mx5", "mx6"]
+ALL = ["basic", "list", "strict", "title", "fixed", "docmarks", "iso", "table", "ni", "cx", "ws", "mx1", "mx2", "mx3", "mx4", "mx5", "mx6"]
 
 _cache = {}
 
